@@ -2,5 +2,7 @@ fn main() {
     // std looks `getrandom` up as a weak symbol "to allow interposition"; export ours so that the
     // per-thread `RandomState` keys of every HashMap in the process come from the run seed.
     println!("cargo:rustc-link-arg-bins=-Wl,--export-dynamic-symbol=getrandom");
+    // `statx` is looked up the same way (std's `weak!` macro); see src/sysseam.rs
+    println!("cargo:rustc-link-arg-bins=-Wl,--export-dynamic-symbol=statx");
     println!("cargo:rerun-if-changed=build.rs");
 }
